@@ -132,7 +132,7 @@ package socket
 //@   flags libframe
 
 //@ func (*rawProto).readHeader
-//@   property C15
+//@   property C15 C04
 //@   flags libframe
 //@   let hm = as(m, type(*message))
 //@   modifies hm.seq, hm.mtype, hm.serviceMethod, hm.status, hm.status.#fromWire, fields(hm.meta), allelems(type(utils.argsKV))
